@@ -475,6 +475,11 @@ func (fr *Frame) binop(x *ssa.BinOp, st *State, reach string) Val {
 		if c, ok := smallConst(b.T); ok {
 			if c >= bits {
 				t = "0"
+			} else if a.UB > 0 && a.UB+c <= bits && !signed {
+				// no wrap possible: exact product, and remember the bit layout for a later OR
+				r := g.goVal(app("*", a.T, pow2s(c)), rt)
+				r.LZ, r.UB = a.LZ+c, a.UB+c
+				return r
 			} else {
 				t = wrapTo(app("*", a.T, pow2s(c)), rt)
 			}
@@ -504,6 +509,19 @@ func (fr *Frame) binop(x *ssa.BinOp, st *State, reach string) Val {
 			g.assume(inRange(t, rt))
 		}
 	case token.OR:
+		if a.UB > 0 && b.UB > 0 && (a.LZ >= b.UB || b.LZ >= a.UB) {
+			// disjoint bit ranges: OR is addition
+			r := g.goVal(app("+", a.T, b.T), rt)
+			r.UB = a.UB
+			if b.UB > r.UB {
+				r.UB = b.UB
+			}
+			r.LZ = a.LZ
+			if b.LZ < r.LZ {
+				r.LZ = b.LZ
+			}
+			return r
+		}
 		t = app("bor", a.T, b.T)
 		g.assume(sImp(sAnd(app(">=", a.T, "0"), app(">=", b.T, "0")), sAnd(app(">=", t, a.T), app(">=", t, b.T), app("<=", t, app("+", a.T, b.T)))))
 		g.assume(inRange(t, rt))
@@ -600,7 +618,12 @@ func (fr *Frame) convert(x *ssa.Convert, st *State) Val {
 		flo, fhi, _ := intRange(from)
 		tlo, thi, _ := intRange(to)
 		if flo.Cmp(tlo) >= 0 && fhi.Cmp(thi) <= 0 {
-			return g.goVal(v.T, to)
+			r := g.goVal(v.T, to)
+			r.LZ, r.UB = v.LZ, v.UB
+			if r.UB == 0 && flo.Sign() == 0 {
+				r.UB = fhi.BitLen()
+			}
+			return r
 		}
 		return g.goVal(wrapTo(v.T, to), to)
 	case fromInt && ts == SFloat:
